@@ -438,7 +438,101 @@ func c11ShapeClass(shape string) string {
 	return sb.String()
 }
 
+// QNode has PNode's member names at other positions (and other method sets):
+// one path expression may be evaluated against either.
+type QNode struct {
+	Any  interface{}
+	Tags []string
+	Pad1 int
+	Name string
+	Next *QNode
+	Attr map[string]string
+}
+
+func (q QNode) Label() string     { return "QL(" + q.Name + ")" }
+func (q QNode) GetTags() []string { return q.Tags }
+func (q *QNode) PLabel() string {
+	if q == nil {
+		return ""
+	}
+	return "QPL(" + q.Name + ")"
+}
+
+// c11MixedTypes: the same AST node navigates values of different struct types.
+func c11MixedTypes(b *core.B) {
+	p := PNode{Name: "p.Name", Tags: []string{"p.Tags[0]"}, Attr: map[string]string{"k0": "p.Attr"}, Next: &PNode{Name: "p.Next.Name"}}
+	q := QNode{Name: "q.Name", Tags: []string{"q.Tags[0]"}, Attr: map[string]string{"k0": "q.Attr"}, Next: &QNode{Name: "q.Next.Name"}}
+	mixed := []interface{}{p, q, &p, &q, q, p}
+	names := "[p.Name][q.Name][p.Name][q.Name][q.Name][p.Name]"
+	cases := []struct{ t, want string }{
+		{"<%= for (m) in mixed { %>[<%= m.Name %>]<% } %>", names},
+		{"<%= for (m) in mixed { %>[<%= m.Tags[0] %>]<% } %>", strings.Replace(names, ".Name", ".Tags[0]", -1)},
+		{"<%= for (m) in mixed { %>[<%= m.Next.Name %>]<% } %>", strings.Replace(names, ".Name", ".Next.Name", -1)},
+		{"<%= for (m) in mixed { %>[<%= m.Attr[\"k0\"] %>]<% } %>", strings.Replace(names, ".Name", ".Attr", -1)},
+		{"<%= for (m) in mixed { %>[<%= m.Label() %>]<% } %>", "[L(p.Name)][QL(q.Name)][L(p.Name)][QL(q.Name)][QL(q.Name)][L(p.Name)]"},
+		{"<%= for (m) in mixed { %>[<%= m.PLabel() %>]<% } %>", "[PL(p.Name)][QPL(q.Name)][PL(p.Name)][QPL(q.Name)][QPL(q.Name)][PL(p.Name)]"},
+		{"<%= for (m) in mixed { %>[<%= m.GetTags()[0] %>]<% } %>", strings.Replace(names, ".Name", ".Tags[0]", -1)},
+		{"<% let nm = fn(x) { return x.Name } %><%= nm(mixed[0]) %>|<%= nm(mixed[1]) %>|<%= nm(mixed[2]) %>|<%= nm(mixed[3]) %>", "p.Name|q.Name|p.Name|q.Name"},
+		{"<%= for (i) in [0, 1, 0, 1] { %>[<%= mixed[i].Name %>]<% } %>", "[p.Name][q.Name][p.Name][q.Name]"},
+	}
+	for _, c := range cases {
+		if !b.Begin("mixed types: " + c.t) {
+			continue
+		}
+		ctx := plush.NewContext()
+		ctx.Set("mixed", mixed)
+		res := render(b, c.t, ctx)
+		b.NonTrivialStr(c.t)
+		b.Count("mixed-struct-types-through-one-node")
+		if res.Pan != nil {
+			continue
+		}
+		if res.Err != nil {
+			b.Violate("valid-rejected|mixed-types|"+core.ErrClass(res.Err), fmt.Sprintf("want %q, got error %v", c.want, res.Err))
+		} else if res.Out != c.want {
+			b.Violate("wrong-value|mixed-types", fmt.Sprintf("want %q, got %q", c.want, res.Out))
+		}
+	}
+	// the same parsed template executed with data of one type, then the other
+	for _, t := range []string{"<%= it.Name %>|<%= it.Tags[0] %>|<%= it.Next.Name %>|<%= it.Label() %>", "<%= items[0].Name %>|<%= items[0].GetTags()[0] %>"} {
+		if !b.Begin("same template, two data types: " + t) {
+			continue
+		}
+		b.NonTrivialStr(t, "2")
+		tm, err := plush.NewTemplate(t)
+		if err != nil {
+			b.Violate("valid-rejected|mixed-types|"+core.ErrClass(err), err.Error())
+			continue
+		}
+		var outs []string
+		pan := core.Guard(func() {
+			for _, v := range []interface{}{p, q, &q, &p, p} {
+				ctx := plush.NewContext()
+				ctx.Set("it", v)
+				ctx.Set("items", []interface{}{v})
+				s, err := tm.Exec(ctx)
+				outs = append(outs, fmt.Sprintf("%s %v", s, err))
+			}
+		})
+		if pan != nil {
+			b.Violate(pan.Sig(), pan.Value)
+			continue
+		}
+		wantP, wantQ := "p.Name|p.Tags[0]|p.Next.Name|L(p.Name) <nil>", "q.Name|q.Tags[0]|q.Next.Name|QL(q.Name) <nil>"
+		if strings.HasPrefix(t, "<%= items") {
+			wantP, wantQ = "p.Name|p.Tags[0] <nil>", "q.Name|q.Tags[0] <nil>"
+		}
+		want := []string{wantP, wantQ, wantQ, wantP, wantP}
+		if fmt.Sprint(outs) != fmt.Sprint(want) {
+			b.Violate("wrong-value|mixed-types|re-execution", fmt.Sprintf("want %q\n got %q", want, outs))
+		}
+	}
+}
+
 func c11Run(b *core.B) {
+	if b.Batch == 0 {
+		c11MixedTypes(b)
+	}
 	r := b.Rng(1)
 	nGraphs := 2
 	if b.Tier == core.Thorough {
